@@ -23,6 +23,7 @@ MNext == /\ nops < MaxOps
          /\ nops' = nops + 1
          /\ \/ \E m \in Msgs : Send(m, SendImpl(m))
             \/ \E r \in Reqs : q # <<>> /\ Recv(r, RecvImpl(Head(q), r))
+            \/ \E j \in DOMAIN held : Inspect(j)
 MSpec == MInit /\ [][MNext]_mvars
 
 ImplRefines ==
